@@ -34,6 +34,86 @@ def _has_bad_pattern_op(t, seen=None):
     return False
 
 
+_ARITH_KINDS = None
+
+
+def pick_patterns(vs, body, limit=4):
+    """Choose E-matching triggers: smallest sub-terms (uninterpreted applications / selects / accessors)
+    that mention the bound variables only through non-arithmetic positions.  Avoids the degenerate
+    triggers z3 infers for index arithmetic such as `(* (- 1) q)`."""
+    global _ARITH_KINDS
+    if _ARITH_KINDS is None:
+        _ARITH_KINDS = {z3.Z3_OP_ADD, z3.Z3_OP_SUB, z3.Z3_OP_MUL, z3.Z3_OP_UMINUS, z3.Z3_OP_DIV, z3.Z3_OP_IDIV,
+                        z3.Z3_OP_MOD, z3.Z3_OP_REM, z3.Z3_OP_TO_REAL, z3.Z3_OP_TO_INT, z3.Z3_OP_LE, z3.Z3_OP_LT,
+                        z3.Z3_OP_GE, z3.Z3_OP_GT, z3.Z3_OP_EQ, z3.Z3_OP_DISTINCT, z3.Z3_OP_ITE, z3.Z3_OP_AND,
+                        z3.Z3_OP_OR, z3.Z3_OP_NOT, z3.Z3_OP_IMPLIES, z3.Z3_OP_IFF if hasattr(z3, 'Z3_OP_IFF') else -1,
+                        z3.Z3_OP_STORE, z3.Z3_OP_TRUE, z3.Z3_OP_FALSE}
+    vids = {v.get_id() for v in vs}
+    info = {}      # id -> (vars mentioned cleanly as frozenset, clean: bool)
+
+    def visit(t):
+        i = t.get_id()
+        if i in info:
+            return info[i]
+        if i in vids:
+            info[i] = (frozenset([i]), True)
+            return info[i]
+        if z3.is_quantifier(t) or not z3.is_app(t):
+            info[i] = (frozenset(), False)
+            return info[i]
+        kids = [visit(c) for c in t.children()]
+        mentioned = frozenset().union(*[k[0] for k in kids]) if kids else frozenset()
+        k = t.decl().kind()
+        clean = all(c[1] or not c[0] for c in kids) and k not in _ARITH_KINDS
+        # children that mention a bound var must themselves be clean or the var
+        clean = clean and all((c[1]) for c in kids if c[0])
+        info[i] = (mentioned, clean)
+        return info[i]
+
+    cands = []
+    stack, seen = [body], set()
+    while stack:
+        t = stack.pop()
+        if t.get_id() in seen or z3.is_quantifier(t):
+            continue
+        seen.add(t.get_id())
+        if z3.is_app(t):
+            m, clean = visit(t)
+            if clean and m and t.get_id() not in vids and t.num_args() > 0:
+                cands.append((t, m))
+            stack.extend(t.children())
+    if not cands:
+        return None
+    import os
+    if os.environ.get('PYVC_DEBUG') == '2' and '(keys out!' in body.sexpr():
+        print('CANDS', [(c[0].sexpr()[:50].replace(chr(10), ' '), len(c[1])) for c in cands][:12])
+        bs = body.sexpr()
+        k = bs.index('(keys out!')
+        print('BODYHAS', bs[max(0, k - 200):k + 120].replace(chr(10), ' '))
+    full = [c for c in cands if c[1] == frozenset(vids)]
+    full.sort(key=lambda c: len(c[0].sexpr()))
+    if full:
+        out, texts = [], set()
+        for t, _ in full:
+            tx = t.sexpr()
+            if tx not in texts and not any(o.sexpr() in tx for o in out):
+                out.append(t)
+                texts.add(tx)
+            if len(out) >= limit:
+                break
+        return out
+    # multi-pattern covering all variables
+    cands.sort(key=lambda c: len(c[0].sexpr()))
+    chosen, covered = [], set()
+    for t, m in cands:
+        if not m <= covered:
+            chosen.append(t)
+            covered |= m
+        if covered == vids:
+            return [z3.MultiPattern(*chosen)] if len(chosen) > 1 else chosen
+    return None
+
+
 def forall(vs, body, patterns=None):
     """ForAll with explicit E-matching patterns where they are legal, inferred patterns otherwise."""
     if patterns:
@@ -47,6 +127,17 @@ def forall(vs, body, patterns=None):
                 return z3.ForAll(vs, body, patterns=patterns)
             except z3.Z3Exception:
                 pass
+    try:
+        pats = pick_patterns(vs, body)
+        import os
+        if os.environ.get('PYVC_DEBUG'):
+            print('PICK', [p.sexpr()[:90].replace(chr(10), ' ') for p in (pats or [])])
+        if pats:
+            return z3.ForAll(vs, body, patterns=pats)
+    except z3.Z3Exception as ex:
+        import os
+        if os.environ.get('PYVC_DEBUG'):
+            print('pick_patterns failed:', ex, [p.sexpr()[:100] for p in (pats or [])])
     return z3.ForAll(vs, body)
 
 
